@@ -26,6 +26,7 @@ using namespace QXmpp::Private;
 #endif
 #define NEWID 7u
 #define SEQ_BOUND 0x7fffffffu
+#define VP_SENT_CAP 8   // capacity of the socket log (models.c)
 enum { K_PACKET = 1, K_ACK = 2, K_REQ = 3, K_OTHER = 4, K_RESUME = 5, K_ENABLE = 6 };
 
 extern "C" {
@@ -39,7 +40,10 @@ bool vp_c09_sent_ok(unsigned i);                          // what the socket ans
 unsigned vp_c09_map_n(const void *map);                   // class-level QMap<uint,QXmppPacket> model: ordered array
 unsigned vp_c09_map_key(const void *map, unsigned i);
 QXmppPacket *vp_c09_map_val(const void *map, unsigned i);
+void vp_c09_map_set(void *map, unsigned i, unsigned key, const QXmppPacket *pkt);   // pre-state construction: entry i := (key, copy of pkt)
+void vp_c09_map_setn(void *map, unsigned n);
 bool vp_c09_false();
+unsigned vp_c09_nfix();
 }
 #ifdef VP_C09_HOOKS
 extern "C" {
@@ -91,7 +95,8 @@ struct World {
         vpC09KeepHooks();
         FakeSock *s = new (sockAt ? sockAt : sockbuf.b) FakeSock();
         m = new (mgrAt ? mgrAt : mgrbuf.b) StreamAckManager(*s);
-        n = vp_u32(); lastOut = vp_u32(); lastIn = vp_u32();
+        unsigned nfix = vp_c09_nfix();                     // case split by instance (-DVP_NFIX=k on the C side), else symbolic
+        n = nfix <= VP_NMAX ? nfix : vp_u32(); lastOut = vp_u32(); lastIn = vp_u32();
         enabled = enabledMode == 2 ? vp_bool() : enabledMode == 1;
         vp_assume(n <= VP_NMAX && lastOut >= n && lastOut < SEQ_BOUND && lastIn < SEQ_BOUND);
         first = lastOut - n + 1;
@@ -101,9 +106,11 @@ struct World {
                 QXmppPromise<SendResult> p;
                 t[i].emplace(p.task());
                 QByteArray payload; vp_c09_payload(&payload, i);
-                m->m_unacknowledgedStanzas.insert(first + i, QXmppPacket(payload, true, std::move(p)));
+                QXmppPacket pkt(payload, true, std::move(p));
+                vp_c09_map_set(&m->m_unacknowledgedStanzas, i, first + i, &pkt);   // entry i of the ordered store (concrete position)
             }
         }
+        vp_c09_map_setn(&m->m_unacknowledgedStanzas, n);
     }
     const void *map() const { return &m->m_unacknowledgedStanzas; }
     // post-condition: map = n2 entries, entry j has key firstKey+j and is pre-state packet firstId+j; INV holds again
@@ -136,16 +143,27 @@ struct World {
         vp_assert(m->m_enabled == en, "C09 stream-management activity flag");
         vp_assert(m->m_lastIncomingSequenceNumber == lastIn, "C09 inbound handled-count unchanged by this event");
     }
-    // the socket log from position `from` on is exactly: the last cnt pre-state packets (ascending), then optionally one <r/>
-    void checkResent(unsigned cnt, bool thenRequest, unsigned from = 0)
+    // socket log entries from position `from` on: no stanza is (re)transmitted; every <a/> carries the handled-count `count`
+    void checkLog(unsigned from, unsigned count)
     {
-        vp_assert(vp_c09_sent_n() == from + cnt + (thenRequest ? 1u : 0u), "C09 exactly the remaining stanzas are transmitted again (plus one ack request)");
-        for (unsigned j = 0; j < VP_NMAX; j++) {
-            if (j < cnt) {
-                vp_assert(vp_c09_sent_kind(from + j) == K_PACKET && vp_c09_sent_val(from + j) == (n - cnt) + j, "C09 resend in original order, oldest first, before anything else");
+        unsigned total = vp_c09_sent_n();
+        for (unsigned j = 0; j < VP_SENT_CAP; j++) {
+            if (j >= from && j < total) {
+                vp_assert(vp_c09_sent_kind(j) != K_PACKET, "C09 no stanza is transmitted (again) by this event beyond the expected ones");
+                vp_assert(vp_c09_sent_kind(j) != K_ACK || vp_c09_sent_val(j) == count, "C09 reported handled-count equals the number of stanzas received");
             }
         }
-        if (thenRequest) vp_assert(vp_c09_sent_kind(from + cnt) == K_REQ, "C09 ack request follows the resent stanzas");
+    }
+    // the socket log starts with exactly the last cnt pre-state packets (ascending); nothing that follows is a stanza
+    void checkResent(unsigned cnt, unsigned count)
+    {
+        vp_assert(vp_c09_sent_n() >= cnt, "C09 every remaining stanza is transmitted again");
+        for (unsigned j = 0; j < VP_NMAX; j++) {
+            if (j < cnt) {
+                vp_assert(vp_c09_sent_kind(j) == K_PACKET && vp_c09_sent_val(j) == (n - cnt) + j, "C09 resend of exactly the uncovered stanzas in original order, oldest first, before anything else");
+            }
+        }
+        checkLog(cnt, count);
     }
     // number of pre-state entries with key <= h (keys are first .. first+n-1)
     unsigned covered(unsigned h) const
